@@ -303,6 +303,18 @@ def bounded_defs(formulas, B: int):
         P = pow2(a)
         cons.append(a <= B)
         cons.append(z3.Implies(a >= 0, z3.Or([z3.And(a == k, P == (1 << k)) for k in range(B + 1)])))
+    for _, t in sorted(collect(formulas)[3].items()):
+        # ipow(b, e): standard value for 0 <= e <= min(B, 12) (concrete base: exact constant; symbolic base: product)
+        b_, e_ = t.arg(0), t.arg(1)
+        K = min(B, 12)
+        cons.append(e_ <= K)
+        alts = []
+        for k in range(K + 1):
+            prod = z3.IntVal(1)
+            for _i in range(k):
+                prod = prod * b_
+            alts.append(z3.And(e_ == k, t == z3.simplify(prod)))
+        cons.append(z3.Implies(e_ >= 0, z3.Or(alts)))
     for _, c in bls.items():
         Bc = bl(c)
         cons.append(c < (1 << B))
